@@ -109,6 +109,12 @@ def Needed.incr (n : Needed) (u : Uid) : Needed :=
 def Needed.decr (n : Needed) (u : Uid) : Needed :=
   (n.map (fun e => if e.1 == u then (u, e.2 - 1) else e)).filter (fun e => e.2 != 0 || e.1 != u)
 
+/-- the entry of a select list that carries the label `n` (union: the right side is re-selected by name) -/
+def pickByName (sel : List Uid) (d : Defs) (n : String) : Except CErr Uid :=
+  match sel.find? (fun u => d.name u == n) with
+  | some u => pure u
+  | none => throw CErr.valueError
+
 /-- `compile_ast(nd, needed_cols)` -/
 def compile : Ast → Needed → Except CErr (Compiled × Needed)
   | .source _ name cols _, needed =>
@@ -222,9 +228,7 @@ def compile : Ast → Needed → Except CErr (Compiled × Needed)
       let rnames := r.query.select.map r.defs.name
       -- right side re-selected in the left order (by name) when the orders differ
       let rsel ← (if lnames == rnames then pure r.query.select else
-        lnames.mapM (fun n => match r.query.select.find? (fun u => r.defs.name u == n) with
-          | some u => pure u
-          | none => throw CErr.valueError) : Except CErr (List Uid))
+        lnames.mapM (pickByName r.query.select r.defs) : Except CErr (List Uid))
       if !r.query.partitionBy.isEmpty || !r.query.groupBy.isEmpty then throw (.assertion "right side grouped")
       let src := Src.union l.src l.query l.defs r.src { r.query with select := rsel } r.defs distinct l.query.select
       let defs : Defs := l.query.select.map (fun u => (u, l.defs.name u, Expr.col u .null .elementWise))
